@@ -405,6 +405,15 @@ def Plan.noRetr : Plan → Bool
   | .outerJoin isL isR _ _ l r => l.noRetr && r.noRetr && !isL && !isR
   | .lookupJoin s j => s.noRetr && j.noRetr
 
+/-- the `NoRetractions` flag of every join node of a plan, in pre-order (`s` StreamJoin, `o` OuterJoin, `l` LookupJoin) -/
+def Plan.joinFlags : Plan → List (Char × Bool)
+  | .scan _ => []
+  | .filter _ s => s.joinFlags
+  | .map _ s => s.joinFlags
+  | .streamJoin kl kr l r => ('s', (Plan.streamJoin kl kr l r).noRetr) :: (l.joinFlags ++ r.joinFlags)
+  | .outerJoin a b kl kr l r => ('o', (Plan.outerJoin a b kl kr l r).noRetr) :: (l.joinFlags ++ r.joinFlags)
+  | .lookupJoin s j => ('l', (Plan.lookupJoin s j).noRetr) :: (s.joinFlags ++ j.joinFlags)
+
 /-- the three kinds of sink of `cmd/root.go` (for a query without ORDER BY / LIMIT) -/
 inductive SinkMode where
   /-- `batch_table`, `live_table`: `batch.OutputPrinter`, a count tree -/
